@@ -319,3 +319,98 @@ func init() {
 		}
 	})
 }
+
+// C27x-incoq prints a Coq file that evaluates the model inside Coq
+// (vm_compute) on a sample of trees and compares with the implementation:
+// the string that String() returns, and the String() of the tree that
+// parseExpr reads back from it (None when the round trip does not give one
+// expression followed by the suffix only).
+func init() {
+	Register("C27x-incoq", func(c *Ctx) {
+		g := newGen(c.Rng)
+		var rows []string
+		add := func(t *xn, tmpl bool) {
+			var real ast.Expression
+			if PanicText(func() { real = t.real() }) != "" {
+				return
+			}
+			old := hook.SetExpandedPrint(true)
+			defer hook.SetExpandedPrint(old)
+			var s string
+			if PanicText(func() { s = real.String() }) != "" {
+				rows = append(rows, fmt.Sprintf("  (%s, [], %s, None, None)", coqBool(tmpl), t.coq()))
+				return
+			}
+			ts, ok := hook.LexExpr([]byte(s), tmpl)
+			hasFunc, hasEscape := false, false
+			if ok {
+				hasFunc, hasEscape = xmayLeaveModel(ts)
+			}
+			if !ok || hasFunc || hasEscape {
+				return
+			}
+			tagQuote := false
+			t.walk(func(m *xn) {
+				for _, f := range m.Fields {
+					if strings.Contains(f.Tag, "`") {
+						tagQuote = true
+					}
+				}
+			})
+			if tagQuote {
+				return
+			}
+			_, suffix := xsplitSuffix(ts, tmpl)
+			re := "None"
+			var e2 ast.Expression
+			var rest int
+			var err error
+			if PanicText(func() { e2, rest, err = hook.ParseExprFlags([]byte(s), tmpl, false, false, false, false) }) == "" &&
+				err == nil && e2 != nil && rest == len(suffix) {
+				var s2 string
+				if PanicText(func() { s2 = e2.String() }) == "" {
+					re = "(Some " + coqBytes(s2) + ")"
+				}
+			}
+			suf := "[]"
+			if len(suffix) == 1 {
+				if tmpl {
+					suf = "[KSym " + coqBytes("}}") + "]"
+				} else {
+					suf = "[KSemi]"
+				}
+			}
+			rows = append(rows, fmt.Sprintf("  (%s, %s, %s, Some %s, %s)", coqBool(tmpl), suf, t.coq(), coqBytes(s), re))
+		}
+		for i := 0; len(rows) < c.N && i < 50*c.N+100; i++ {
+			g.tmpl = i%3 == 0
+			switch i % 4 {
+			case 0:
+				add(g.xtype(1+g.r.Intn(2)), g.tmpl)
+			case 1:
+				add(g.xpostfix(1+g.r.Intn(2)), g.tmpl)
+			default:
+				add(g.xexpr(1+g.r.Intn(3)), g.tmpl)
+			}
+		}
+		fmt.Println("From Coq Require Import List NArith Bool.")
+		fmt.Println("From Verif Require Import Bytes Facts_AstOps Facts_AstPrim ExprFullM ExprFullOk ExprFullInst.")
+		fmt.Println("Import ListNotations.\nOpen Scope N_scope.")
+		fmt.Println("Definition cases : list (bool * list tk * ex * option bytes * option bytes) := [")
+		fmt.Println(strings.Join(rows, ";\n") + "].")
+		fmt.Println(`Definition ob_eqb (a b : option bytes) : bool :=
+  match a, b with Some x, Some y => bytes_eqb x y | None, None => true | _, _ => false end.
+Definition reshow (tmpl : bool) (suffix : list tk) (e : ex) : option bytes :=
+  match x_roundtrip true tmpl false suffix e with
+  | RtRes (ROk (Some e', r)) => if Nat.eqb (length r) (length suffix) then x_show true e' else None
+  | _ => None
+  end.
+Definition agree (c : bool * list tk * ex * option bytes * option bytes) : bool :=
+  let '(tmpl, suffix, e, s, re) := c in
+  ob_eqb (x_show true e) s && ob_eqb (reshow tmpl suffix e) re.
+Definition mismatches := Eval vm_compute in map (fun c => snd (fst (fst c))) (filter (fun c => negb (agree c)) cases).
+Print mismatches.
+Definition checked := Eval vm_compute in length cases.
+Print checked.`)
+	})
+}
